@@ -446,9 +446,15 @@ func forbidden(c cellT, shape string) string {
 		base = ""
 		switch c.style {
 		case "spaceDelimited":
-			base += " ,"
+			base += ","
+			if c.explode != "true" {
+				base += " " // with explode every item is a key=value of its own: a space inside an item is data
+			}
 		case "pipeDelimited":
-			base += "|,"
+			base += ","
+			if c.explode != "true" {
+				base += "|"
+			}
 		case "deepObject":
 			base += "[]"
 		default:
